@@ -8,7 +8,7 @@ instantiates every shape with the real batch size (25000), runs the real `kp` bi
 (harness/src/bin/gvh_kp.rs) for the tuple the specification assigns to that line, plus the exit
 status class and "stderr non-empty" as predicted.
 """
-import json, os, shutil, subprocess, hashlib, time
+import json, os, re, shutil, subprocess, hashlib, time
 from concurrent.futures import ProcessPoolExecutor
 from fractions import Fraction
 import vlib
@@ -239,7 +239,7 @@ def _run_shape(shape, key, d, gen, kp, gvh, corrupt):
         finally:
             if stdin_path:
                 si.close()
-    stderr_head = open(err_path, "rb").read(600).decode("utf-8", "replace")
+    stderr_head = re.sub(r"\(\d+\) ", "", open(err_path, "rb").read(600).decode("utf-8", "replace")).replace(d + os.sep, "")
     stderr_nonempty = os.path.getsize(err_path) > 0
     # ---- the library
     o = shape["opts"]
@@ -281,6 +281,7 @@ def _run_shape(shape, key, d, gen, kp, gvh, corrupt):
         if rc != 0:
             fails.append({"what": "abnormal-end", "msg": "valid input ended with status %s%s" % (
                 rc, " (panic)" if rc == 101 else "")})
+    cmd = [a.replace(d + os.sep, "") for a in cmd]      # reported without the scratch directory
     return {"key": key, "fails": fails, "cmd": cmd, "observed": observed, "expected": expected,
             "evaluations": 1 + lib.get("evaluations", 0), "lines": n,
             "stdout_ok": shape["refstatus"] == "ok" and lib.get("count_ok") and not lib.get("n_mismatch", 0)}
